@@ -180,13 +180,16 @@ def o_report_filter(ctx):
     conf = H.conformation('AVR', p=p, mol=mol)
     specs = [('COOGroup', 'ASP', 'CG', -1), ('CYSGroup', 'CYS', 'SG', -1), ('LYSGroup', 'LYS', 'NZ', 1),
              ('BBNGroup', 'ALA', 'N', 0), ('NtermGroup', 'GLY', 'N', 1), ('CtermGroup', 'GLY', 'OXT', -1),
-             ('AMDGroup', 'ASN', 'CG', 0)]
+             ('AMDGroup', 'ASN', 'CG', 0),
+             # a ligand carboxylate: its label (type + atom name + chain) carries no residue number, so two
+             # copies of the ligand in one chain have identical labels and are told apart by residue number only
+             ('OCOGroup', 'ACT', 'C', -1)]
     groups = []
     chains = []
     for i in range(2):
         cls, rn, an, q = ctx.choice('type%d' % i, specs)
         chain = ctx.choice('chain%d' % i, ['A', 'B'])
-        g = mk_group(cls, rn, 10 + i, an, chain=chain, q=q, p=p)
+        g = mk_group(cls, rn, 10 + i, an, chain=chain, q=q, p=p, rec='hetatm' if cls == 'OCOGroup' else 'atom')
         if cls == 'NtermGroup':
             g.residue_type = 'N+'
         if cls == 'CtermGroup':
@@ -259,7 +262,7 @@ def obligations(tier):
                    code=['propka/molecular_container.py:MolecularContainer.average_of_conformations', G + 'Group.use_in_calculations',
                          'propka/conformation_container.py:ConformationContainer.get_groups_for_calculations',
                          'propka/output.py:get_determinant_section', 'propka/output.py:get_summary_section', G + 'Group.get_summary_string'],
-                   bounds='2 groups, each of 7 kinds, chain in {A,B}, titratable / exclude-cys flags chosen by fork', max_paths=100000, shards=4,
+                   bounds='2 groups, each of 8 kinds (incl. two copies of a ligand carboxylate with identical labels), chain in {A,B}, titratable / exclude-cys flags chosen by fork', max_paths=100000, shards=4,
                    claim_doc='printed exactly once in both sections iff titratable or (CYS and not excluded); model pKa shown', wall_s=170),
     ]
     return obs
